@@ -67,6 +67,21 @@ def gen_shared_target(rng: random.Random) -> dict:
     return {"program": [{"name": "g0", "nodes": nodes, "bound": []}], "values": values, "cfg": {}}
 
 
+def gen_same_step_feed(rng: random.Random) -> dict:
+    """A producer and its consumer READY IN THE SAME STEP, the producer listed first: the consumer starts on its own default (or, in the
+    loop variant, on the previous turn's value) — every node of a step reads the values as they were when the step began."""
+    if rng.random() < 0.5:
+        d = rng.randint(5, 9)
+        nodes = [{"name": "a", "kind": "fn", "params": [["x", None]], "dataOuts": ["va"], "body": {"b": "sum", "k": 1}},
+                 {"name": "b", "kind": "fn", "params": [["va", {"d": d}], ["y", None]], "dataOuts": ["vb"], "body": {"b": "tag", "t": "b"}},
+                 {"name": "c", "kind": "fn", "params": [["vb", None]], "dataOuts": ["vc"], "body": {"b": "tag", "t": "c"}}]
+        if rng.random() < 0.5:
+            nodes.insert(1, {"name": "a2", "kind": "fn", "params": [["va", {"d": d}]], "dataOuts": ["va2"], "body": {"b": "sum", "k": 2}})
+        return {"program": [{"name": "g0", "nodes": nodes, "bound": []}], "values": [["x", rng.randint(0, 3)], ["y", rng.randint(0, 3)]], "cfg": {}}
+    c = gen.gen_loop_bounded(rng)
+    return c
+
+
 class C02(RunProp):
     id = "C02"
     level = "proof"
@@ -82,9 +97,9 @@ class C02(RunProp):
     def cases(self, rng: random.Random, tier: str) -> Iterable[dict]:
         gens = [lambda: gen.gen_dag_program(rng, max_nodes=8, depth=rng.choice([0, 1, 2])), lambda: gen.gen_gated_cfg(rng),
                 lambda: gen.gen_loop_bounded(rng), lambda: gen.gen_failing_dag(rng), lambda: gen.gen_map_node(rng)]
-        gens = gens * 2 + [lambda: gen_mutex_race(rng), lambda: gen.gen_map_node(rng, force="raise-multi"), lambda: gen_shared_target(rng)]
+        gens = gens * 2 + [lambda: gen_mutex_race(rng), lambda: gen.gen_map_node(rng, force="raise-multi"), lambda: gen_shared_target(rng), lambda: gen_same_step_feed(rng)]
         # the dedicated families are visited several times per run, whatever the seed
-        forced = [lambda: gen_shared_target(rng), lambda: gen_mutex_race(rng), lambda: gen.gen_map_node(rng, force="raise-multi")] * 3
+        forced = [lambda: gen_shared_target(rng), lambda: gen_mutex_race(rng), lambda: gen.gen_map_node(rng, force="raise-multi"), lambda: gen_same_step_feed(rng)] * 3
         while True:
             c = forced.pop()() if forced else rng.choice(gens)()
             if continue_map_with_failing_items(c["program"]):
